@@ -20,6 +20,7 @@ type svcEnv struct {
 	pktOut  []string // Coq cases: packets written by the real service
 	pktIn   []string // Coq cases: packets written by the harness and accepted by the service
 	streams []string
+	svcTr   []string // Coq cases: packet transcripts (list sev)
 	mu      sync.Mutex
 	idMu    sync.Mutex
 	used    map[uint32]bool
@@ -333,8 +334,41 @@ func scenOneShot(seed uint64, e *svcEnv, idx int) {
 	if cut {
 		e.st.Note("svc-stdin-cut", fmt.Sprint(seed), true)
 	}
+	s.hwg.Wait()
+	e.addTranscript(s.transcript(), exited)
 	e.collect(s, 12)
 	e.st.Sample(map[string]interface{}{"service_scenario": "oneshot", "clients": k, "sent": nsent, "cut_at": s.cutAt})
+}
+
+// coqSev prints a transcript as a Coq term of type list sev
+func coqSev(tr []svcEvent, exited bool) string {
+	var items []string
+	for _, ev := range tr {
+		switch ev.Kind {
+		case "creq":
+			items = append(items, fmt.Sprintf("ECReq %d", ev.ID))
+		case "sresp":
+			items = append(items, fmt.Sprintf("ESResp %d", ev.ID))
+		case "sreq":
+			items = append(items, fmt.Sprintf("ESReq %d", ev.ID))
+		case "cresp":
+			items = append(items, fmt.Sprintf("ECResp %d", ev.ID))
+		case "close":
+			items = append(items, "EClose")
+		}
+	}
+	if exited {
+		items = append(items, "EExit")
+	}
+	return "[" + strings.Join(items, "; ") + "]"
+}
+
+func (e *svcEnv) addTranscript(tr []svcEvent, exited bool) {
+	if len(tr) <= 400 {
+		e.mu.Lock()
+		e.svcTr = append(e.svcTr, coqSev(tr, exited))
+		e.mu.Unlock()
+	}
 }
 
 func trString(tr []svcEvent) string {
